@@ -43,6 +43,14 @@ def ok (a b : Access) : Bool :=
 def raceFree (t : List Access) : Bool :=
   t.all (fun a => t.all (fun b => a.loc != b.loc || ok a b))
 
+/-- locations with an unsynchronised conflict today (open known findings) -/
+def knownRacy : List String := ["locales.DefaultLocales", "types.ZodLazyInternals.innerType"]
+
+/-- the cells of the table that falsify `raceFree`: pairs of accesses to one location that are not `ok`
+    (each unordered pair once), as `(loc, fn₁, fn₂)` -/
+def conflicts (t : List Access) : List (String × String × String) :=
+  (t.flatMap (fun a => (t.filter (fun b => a.loc == b.loc && !ok a b && a.fn ≤ b.fn)).map (fun b => (a.loc, a.fn, b.fn)))).eraseDups
+
 def without (locs : List String) (t : List Access) : List Access := t.filter (fun a => !locs.contains a.loc)
 def only (loc : String) (t : List Access) : List Access := t.filter (fun a => a.loc == loc)
 
